@@ -128,3 +128,20 @@ fn d8_udp6_zero_checksum() {
     }
     assert!(zero.is_none(), "UDP/IPv6 reply transmitted with checksum 0 for id suffix {:04x}", zero.unwrap());
 }
+
+#[test]
+fn d6_dns_response_answered() {
+    let m = mk(None);
+    // DNS *response* (QR=1) with one IN/A question for "a."
+    let p = vec![0x12,0x34, 0x80,0x00, 0,1, 0,0, 0,0, 0,0, 1,b'a',0, 0,1, 0,1];
+    let f = udp4_frame(40000, 53, &p);
+    let r = reply(&f, &m);
+    assert!(r.is_none(), "a DNS message with QR=1 was answered");
+}
+#[test]
+fn d6_dns_query_still_answered() {
+    let m = mk(None);
+    let p = vec![0x12,0x34, 0x01,0x00, 0,1, 0,0, 0,0, 0,0, 1,b'a',0, 0,1, 0,1];
+    let f = udp4_frame(40000, 53, &p);
+    assert!(reply(&f, &m).is_some());
+}
